@@ -468,74 +468,4 @@ theorem mod_sound_partial (E : Env) (as : ASlots) (vs : Slots) (td : TD) (c : Ca
     · have hr' := hf rfl
       cases r <;> simp [tagOf] at hr'; rfl
 
-/-! ### the claim for all modelled functions at once -/
-
-/-- **finding classes of clauses (a)/(k)**, decidable on the argument kinds of the call:
-    * `pop`: the array kind has a known index that must be present (`type_def` = argument kind);
-    * `slice`: an argument that is exactly an array with known indices (same reason);
-    * `mod`: constant integer modulus with a dividend that is not exactly `integer`;
-    * `compact`, `flatten`: an argument that may be an array but is not exactly one (`.p`);
-    * `push`, `append`, `values`, `merge`: no theorem here — their type_defs are built from
-      `Kind::union` / `Kind::merge` / `insert` at `exact_length`, whose soundness is C19's with C19's
-      own finding classes (`merge` with `deep: true` is violated: `W.witness_merge_deep`). For these
-      four the claim rests on the sweep oracle only. -/
-def soundClass (F : Fn) (as : ASlots) : Bool :=
-  let k0 := akind as 0
-  match F with
-  | .pop => !(arrayCol k0).knownOptional
-  | .slice => !(k0.isBytes || !k0.isArray || (arrayCol k0).known.isEmpty)
-  | .mod => (match aconst as 1 with | some (.int _) => !k0.isInteger | _ => false)
-  | .compact | .flatten => !(k0.isArray || !k0.hasArr)
-  | .push | .append | .values | .merge => true
-  | _ => false
-
-/-- **C03 (a)+(k), what holds: for every modelled function, every call the compiler accepts and all
-    argument values the argument expressions can evaluate to, a returned value belongs to the
-    TypeDef the compiler computed for the call and to the function's documented return kinds —
-    outside the classes of `soundClass`.** -/
-theorem sound_partial (E : Env) (F : Fn) (as : ASlots) (vs : Slots) (td : TD) (c : Call F as vs td)
-    (h : soundClass F as = false) : SoundAt E F as vs td := by
-  cases F
-  case pop =>
-    exact pop_sound_partial E as vs td c (by simpa [soundClass] using h)
-  case slice =>
-    refine slice_sound_partial E as vs td c ?_
-    simp only [soundClass, Bool.not_eq_false', Bool.or_eq_true, Bool.not_eq_true'] at h
-    rcases h with (h | h) | h
-    · exact Or.inl h
-    · exact Or.inr (Or.inl h)
-    · refine Or.inr (Or.inr ?_)
-      cases hk : (arrayCol (akind as 0)).known with
-      | nil => rfl
-      | cons _ _ _ => simp [hk, KList.isEmpty] at h
-  case mod =>
-    refine mod_sound_partial E as vs td c ?_
-    intro i hi
-    simpa [soundClass, hi] using h
-  case compact =>
-    refine compact_flatten_sound_partial E .compact (Or.inl rfl) as vs td c ?_
-    simp only [soundClass, Bool.not_eq_false', Bool.or_eq_true, Bool.not_eq_true'] at h
-    exact h
-  case flatten =>
-    refine compact_flatten_sound_partial E .flatten (Or.inr rfl) as vs td c ?_
-    simp only [soundClass, Bool.not_eq_false', Bool.or_eq_true, Bool.not_eq_true'] at h
-    exact h
-  case push => simp [soundClass] at h
-  case append => simp [soundClass] at h
-  case values => simp [soundClass] at h
-  case merge => simp [soundClass] at h
-  case array => exact array_sound E as vs td c
-  case object => exact object_sound E as vs td c
-  case split => exact split_sound E as vs td c
-  case keys => exact keys_sound E as vs td c
-  case abs => exact num_sound E .abs (by simp) as vs td c
-  case floor => exact num_sound E .floor (by simp) as vs td c
-  case ceil => exact num_sound E .ceil (by simp) as vs td c
-  case round => exact num_sound E .round (by simp) as vs td c
-  case unique => exact anyColl_sound E .unique (by simp) as vs td c
-  case toEntries => exact anyColl_sound E .toEntries (by simp) as vs td c
-  case fromEntries => exact anyColl_sound E .fromEntries (by simp) as vs td c
-  case unflatten => exact anyColl_sound E .unflatten (by simp) as vs td c
-  all_goals exact prim_sound E _ _ rfl as vs td c
-
 end C03
